@@ -133,14 +133,19 @@ def gen_constraints(rng, col):
     return out
 
 
-def tdda_dict(per_field):
-    """constraints in the documented .tdda dictionary form"""
+def tdda_dict(per_field, frame=None):
+    """constraints in the documented .tdda dictionary form. A date bound for a timezone-aware column is written with
+    the UTC offset of that wall-clock time in the column's zone (a naive bound on an aware column has no documented
+    meaning: the two cannot be compared)"""
+    fams = {c['name']: c['fam'] for c in frame['cols']} if frame else {}
     fields = {}
     for name, ks in per_field.items():
         d = {}
         for k in ks:
             v = k['value']
-            if isinstance(v, (dt.datetime, dt.date)):
+            if isinstance(v, dt.datetime) and fams.get(name) == 'datetime-tz':
+                v = str(pd.Timestamp(v, tz='Europe/London'))
+            elif isinstance(v, (dt.datetime, dt.date)):
                 v = str(v)
             if k['kind'] in ('min', 'max') and k.get('precision'):
                 d[k['kind']] = {'value': v, 'precision': k['precision']}
@@ -329,10 +334,10 @@ class C02(core.Prop):
         try:
             with quiet(), contextlib.redirect_stdout(io.StringIO()):
                 if detect:
-                    v = detect_df(df, tdda_dict(case['constraints']), epsilon=eps,
+                    v = detect_df(df, tdda_dict(case['constraints'], case['frame']), epsilon=eps,
                                   type_checking='strict' if case['strict'] else 'sloppy', repair=False)
                 else:
-                    v = verify_df(df, tdda_dict(case['constraints']), epsilon=eps,
+                    v = verify_df(df, tdda_dict(case['constraints'], case['frame']), epsilon=eps,
                                   type_checking='strict' if case['strict'] else 'sloppy', repair=False)
             res = ('ok', v)
         except Exception as e:
